@@ -41,6 +41,7 @@ def run(ctx):
     # with it after every completed iteration (C06.P1 sources of the returned move, C06.P8 the first move searched always counts)
     p06.p1(ctx, F)
     p06.p8(ctx, F)
+    p06.p9(ctx, F)
     for i in ctx.instances[before:]:
         i["rule"] = "C07.Q6(" + i["rule"] + ")"
     for v in ctx.violations[nv:]:
